@@ -816,7 +816,7 @@ class SCFG(Sized):
             solo_exit_name = next(iter(exits))
             return solo_tail_name, solo_exit_name
 
-        if len(tails) == 1 and len(exits) == 2:
+        if len(tails) == 1 and len(exits) >= 2:
             # join only exits
             solo_tail_name = next(iter(tails))
             solo_exit_name = self.name_gen.new_block_name(SYNTH_EXIT)
